@@ -745,6 +745,18 @@ g = B.find(r"for \(row = 0; row < " + E + r"; row\+\+\) \{" + W + r"unsigned cha
 cdef("dec_tmp_rows", ["v_samp_factor"], g.group(1), "math", "tj3DecodeYUVPlanes8: rows of the upsampling scratch buffer")
 cdef("dec_tmp_rowoff", ["width_in_blocks", "row"], g.group(2), "u32", "tj3DecodeYUVPlanes8: offset of an upsampling scratch row")
 
+
+# ------------------------------------------------------------------ jutils.c jcopy_sample_rows (8-bit instance: sizeof(_JSAMPLE) == 1)
+B = Body("_jcopy_sample_rows", "jutils.c")
+g = B.find(r"register size_t count = " + E + r";", "count")
+cdef("jcopy_count", ["num_cols"], re.sub(r"sizeof\(_JSAMPLE\)", "1", g.group(1)), "math", "jcopy_sample_rows: bytes per row (sizeof(_JSAMPLE) = 1)")
+g = B.find(r"input_array \+= " + E + r";" + W + r"output_array \+= " + E + r";", "first source / destination row")
+cdef("jcopy_src_first", ["source_row"], g.group(1), "math", "jcopy_sample_rows: first source row")
+cdef("jcopy_dst_first", ["dest_row"], g.group(2), "math", "jcopy_sample_rows: first destination row")
+g = B.find(r"for \(row = " + E + r"; row > 0; row--\) \{" + W + r"inptr = \*input_array\+\+;" + W + r"outptr = \*output_array\+\+;" + W +
+           r"memcpy\(outptr, inptr, count\);", "row loop: one memcpy of count bytes per row, both row pointers advance by one")
+cdef("jcopy_iterations", ["num_rows"], g.group(1), "math", "jcopy_sample_rows: initial value of the down-counting loop variable")
+
 # ------------------------------------------------------------------ copy loops of the per-plane functions
 JI = open(repo + "/src/jpegint.h").read()
 MACROS["MAX"] = define_macro(JI, "MAX")
